@@ -25,7 +25,7 @@ ASSUMPTIONS = ["PARTIAL: the expectation is not a theorem. Decided: collision on
 
 
 def correspond(run):
-    n = 500 if run.tier == "quick" else 5000
+    n = 500 if run.depth == "quick" else 5000
     cases, codes = sklib.correspond_sk(run, n, "dens")
     if cases is None:
         return
